@@ -1,7 +1,7 @@
 """C09 — speaker convergence / history independence (Model/Speaker.v)."""
 import json, os
 
-CLOSURE = ["Model/BgpAds.v", "Model/Speaker.v", "Proofs/BgpAdsP.v", "Proofs/SpeakerP.v"]
+CLOSURE = ["Model/BgpAds.v", "Model/Speaker.v", "Proofs/BgpAdsP.v", "Proofs/SpeakerP.v", "Proofs/SpeakerRefuted.v"]
 OVERLAY = {"internal/layer2/zz_verif_spk.go": os.path.join(os.path.dirname(os.path.dirname(os.path.abspath(__file__))),
                                                           "harness", "internal", "layer2", "zz_verif_spk.go")}
 
@@ -37,7 +37,7 @@ def run(ctx):
                                    "on history %d (%s): %s" % (m, byid.get(m, {}).get("kind"), json.dumps(byid.get(m, {}).get("in"))[:900]))
     st = state["stats"]
     if cases:
-        for k in ("ev_svc", "ev_del", "ev_cfg_accepted", "ev_cfg_refused", "ev_node_resync", "ev_node_plain", "ev_spk",
+        for k in ("ev_svc", "ev_del", "ev_cfg_accepted", "ev_cfg_orphaning", "ev_node_resync", "ev_node_plain", "ev_spk",
                   "fresh_announces_l2", "fresh_announces_bgp", "oracle_gone_checks", "f9_hits", "first_node_event_hits"):
             if st.get(k, 0) == 0:
                 raise Exception("generator degenerate: counter %r is zero: %r" % (k, st))
